@@ -38,6 +38,7 @@ type Plan struct {
 	Ord    int    // 1-based occurrence of that label while armed
 	Act    Action
 	TornN  int   // prefix length for Torn
+	TornRel int  // if >0: the torn prefix ends TornRel bytes after the first byte that differs from the block on disk
 	Sticky bool  // keep failing every later occurrence of Label too (default: fire once)
 	NoTrace bool // do not record the site trace (long concurrent runs)
 	DelayP int   // if >0: per-site probability (percent) of a 0-3ms delay (interleaving widening)
